@@ -115,6 +115,12 @@ CHECKS.update({
             "Liveness is bounded: fairness forcing after 24 skipped turns, 200k-step budget. A process abort inside a run is turned into a replayable violation. One known finding (Flatten concurrent with DropPrefix segfaults) is probed from a recorded case and not generated; items/iterators are not held across drops (documented as unsafe).", "3/C38"),
 })
 
+CHECKS.update({
+    "C22": ("exploration", "deterministic simulation of the lock-free skiplist at CAS granularity + porcupine linearizability check",
+            "Writers and readers on one real skl.Skiplist with a schedule point before every CAS/setValue of Put: the Put/Get history is checked for linearizability per user key with porcupine against a sorted-map model, every iteration for order, no duplicates, no torn values and inclusion of every completed Put, the final content for last-writer consistency.",
+            "Histories are short (<=50 operations) so that the linearizability check stays tractable; an inconclusive (timed out) check is counted, never reported.", "3/C22"),
+})
+
 PENDING = {}  # property -> reason while not yet implemented
 
 def main():
